@@ -348,3 +348,51 @@ class pile_mctc:
         yield "succeeds-iff-the-child-accepts", eq(result, ev[4])
 
     loops = {0: Loop(invariant=_hit_loop)}
+
+
+# --------------------------------------------------------------------------------------------- render
+
+
+def _render_loop(v):
+    """The canvases collected so far have the rows of the children seen so far (a child without rows is skipped
+    and adds none), and each is as wide as the pile."""
+    st = cur()
+    i = v.i_
+    H = v.heights
+    cl = v.combinelist.seq
+    m = Q.seq_len(cl)
+    pile_at(i - 1, i, *st.ghost.get("extreme_witnesses", []))
+    k = V.arbitrary("CanvasCombine.k")
+    yield "pile-width", implies(n_items(v.self) > 0, v.maxcol == v.size[0])
+    yield "no-more-canvases-than-children-seen", both(0 <= m, m <= i)
+    yield "rows-so-far", psum_of(cl, m) == psum_of(H, i)
+    if not isinstance(cl, tuple):  # (the empty list before the first iteration: nothing to say)
+        yield "every-canvas-has-the-pile-width", implies(both(0 <= k, k < m), Q.seq_get(cl, k)[0].ncols == v.size[0])
+        yield "the-first-canvas-has-the-pile-width", implies(0 < m, Q.seq_get(cl, 0)[0].ncols == v.size[0])
+
+
+@contract(PI + "Pile.render", property=("C01", "C09"), inline=EINL, replayable=False)
+class pile_render:
+    """C01 (ii): the canvas of a Pile is exactly as wide as asked and has the rows of the shared geometry (flow:
+    their sum = what Pile.rows reports) or exactly the rows asked for (box: padded / trimmed at the bottom).
+    (The cursor clause of C09 (i) for render is not stated here: see the final report.)"""
+
+    self_shape = PILE
+    qf_branching = True
+    params = dict(size=PSIZE, focus=Bool)
+    result = CCANVAS
+    raises = ()
+
+    def requires(s, a):
+        return both(pile_geo_requires(s, a.size), a.size[0] >= 1)
+
+    def ensures(old, s, a, r):
+        g = Geo(old, a.size, a.focus)
+        yield "width-is-the-width-asked-for", r.ncols == a.size[0]
+        if len(a.size) == 2:
+            yield "box-height-is-the-height-asked-for", r.nrows == a.size[1]
+        else:
+            yield "flow-height-is-the-sum-of-the-childrens-rows", r.nrows == g.total()
+        yield "frame", both(s._contents._focus == old._contents._focus, n_items(s) == n_items(old))
+
+    loops = {0: Loop(invariant=_render_loop, shapes={"combinelist": COMBINE_LIST})}
